@@ -2024,6 +2024,11 @@ static int64_t msa_get_rlen(const ESL_MSA *msa, int seqidx);
  *
  * Returns:   <eslOK> on success.
  *
+ * Throws:    <eslEINVAL> if <useconsseq> is TRUE and <msa> has no alphabet
+ *            (<msa->abc> is NULL, as in every text mode alignment built by
+ *            the library): a consensus residue cannot be named.
+ *            <eslEMEM> on allocation failure.
+ *
  * Xref:      HMMER p7_Fastmodelmaker() uses an essentially identical
  *            calculation to define model architecture, and could be
  *            rewritten now to use this function. 
@@ -2042,7 +2047,10 @@ esl_msa_ReasonableRF(ESL_MSA *msa, double symfrac, int useconsseq, char *rfline)
   int    status;
 
   if (useconsseq)
-    ESL_ALLOC(counts, msa->abc->K * sizeof(float));
+    {
+      if (msa->abc == NULL) ESL_EXCEPTION(eslEINVAL, "consensus residues need an alphabet: digitize the alignment first");
+      ESL_ALLOC(counts, msa->abc->K * sizeof(float));
+    }
 
   if (msa->flags & eslMSA_DIGITAL)
     {
@@ -2074,6 +2082,7 @@ esl_msa_ReasonableRF(ESL_MSA *msa, double symfrac, int useconsseq, char *rfline)
       for (apos = 0; apos < msa->alen; apos++) 
       {
         r = totwgt = 0.;
+        if (useconsseq) esl_vec_FSet(counts, msa->abc->K, 0.0);
         for (idx = 0; idx < msa->nseq; idx++)
         {
             if    (isalpha(msa->aseq[idx][apos]))
@@ -2084,7 +2093,7 @@ esl_msa_ReasonableRF(ESL_MSA *msa, double symfrac, int useconsseq, char *rfline)
             else          totwgt += msa->wgt[idx];
         }
         if (r > 0. && r / totwgt >= symfrac) {
-          if (useconsseq) rfline[apos-1] = msa->abc->sym[esl_vec_FArgMax(counts, msa->abc->K)];
+          if (useconsseq) rfline[apos] = msa->abc->sym[esl_vec_FArgMax(counts, msa->abc->K)];
           else            rfline[apos] = 'x';
         }
         else              rfline[apos] = '.';
